@@ -90,6 +90,37 @@ void bin(sink& out, char const* opn, std::vector<A> const& as, std::vector<B> co
     }
 }
 
+// a bare built-in left operand with a wrapped right operand (the "non-wrapper OP wrapper" overloads): same expectation
+template<class Op, class A, class B>
+void bin_bare_lhs(sink& out, char const* opn, std::vector<A> const& as, std::vector<B> const& bs, bool shift = false)
+{
+    if constexpr (requires(A a, W<B> b) { Op{}(a, b); }) {
+        using WR = decltype(Op{}(std::declval<A>(), std::declval<W<B>>()));
+        using WT = innermost_t<WR>;
+        using BT = decltype(Op{}(std::declval<A>(), std::declval<B>()));
+        int id = add_inst(out, ev("Inst").str("kind", "NtBin").str("op", opn).str("nest", std::string(nest<B>::name) + "/bare_lhs").raw("lt", ty<A>()).raw("rt", ty<B>())
+                                       .raw("wt", ty<WT>()).raw("bt", ty<BT>()));
+        bool divlike = std::string(opn) == "div" || std::string(opn) == "mod";
+        std::size_t n = 0;
+        for (A a : as) {
+            for (B b : bs) {
+                if ((divlike && b == 0) || (!thorough() && (n++ % 3))) {
+                    continue;
+                }
+                if (shift && (b < 0 || static_cast<u128>(b) >= sizeof(BT) * 8)) {
+                    continue;
+                }
+                WT wres{};
+                BT bres{};
+                auto wo = guarded([&] { wres = cnl::unwrap(Op{}(a, W<B>{b})); });
+                auto bo = guarded([&] { bres = Op{}(a, b); });
+                out.put(ev("NtBin").num("i", id).raw("l", enc(a)).raw("r", enc(b)).raw("wres", wo == "ok" ? enc(wres) : "[0]")
+                                .raw("bres", bo == "ok" ? enc(bres) : "[0]").str("wout", wo).str("bout", bo).s);
+            }
+        }
+    }
+}
+
 template<class A, class B>
 void cmp(sink& out, std::vector<A> const& as, std::vector<B> const& bs)
 {
@@ -231,6 +262,10 @@ void with_rhs(sink& out, std::uint64_t salt)
     }
     bin<shift_left_op>(out, "shl", as, counts, true);
     bin<shift_right_op>(out, "shr", as, counts, true);
+    bin_bare_lhs<shift_left_op>(out, "shl", as, counts, true);
+    bin_bare_lhs<shift_right_op>(out, "shr", as, counts, true);
+    bin_bare_lhs<add_op>(out, "add", as, bs);
+    bin_bare_lhs<multiply_op>(out, "mul", as, bs);
     cmp(out, as, bs);
     assign(out, as, bs);
 }
